@@ -315,6 +315,7 @@ FORM_P = {"WW": lambda c: c - 1, "CS": lambda c: c - 1, "LLW": lambda c: c - 1, 
 # formulations whose M is the Gram matrix of the CENTRED nu (M_is_gram_of_nu): the dual objective controls the
 # decision values only up to a common function added to all classes, so centred values are compared
 CENTRED = {"LLW", "ATM", "ATS", "ADM", "MMR", "RS"}
+SIMPLEX = {"CS", "ATM", "ADM", "MMR"}          # trained by QpMcSimplexDecomp
 
 
 def gen_dataset(r, quick):
@@ -358,7 +359,7 @@ def centre(vals, outputs):
     return res
 
 
-def run_harness_lines(exe, ops, timeout=240):
+def run_harness_lines(exe, ops, timeout=60):
     e = dict(os.environ); e["OMP_NUM_THREADS"] = "1"
     e.setdefault("ASAN_OPTIONS", "detect_leaks=0:abort_on_error=0")
     try:
@@ -391,6 +392,10 @@ def check_train_group(ctx, exe, ds, F, bias, C, eps, kern, cfgs, disp=None):
     ctx.count("train_runs", len(cfgs)); ctx.count("evaluations", len(cfgs))
     ctx.hist("train_formulation", F + ("+b" if bias else ""))
     res = [parse_train(l) for l in lines[2:]]
+    tag = F + ("+b" if bias else "")
+    if rc == -99 and F in SIMPLEX and k > 2:
+        # with offset the BiasSolver re-runs the inner solver until it is eps-KKT: if the inner solver stalls this never ends
+        return (f"F-C16-4:simplex-solver-stalls:{tag}", f"QpMcSimplexDecomp-based training did not finish: {err[-200:]}", ops)
     if rc != 0 or len(res) != len(cfgs):
         m = re.search(r"ERROR: AddressSanitizer: (\S+)|runtime error: ([^\n]*)", err)
         return f"crash:train:{(m.group(1) or m.group(2)) if m else 'abort'}:{F}", f"trainer harness aborted: {err[-400:]}", ops
@@ -398,7 +403,6 @@ def check_train_group(ctx, exe, ds, F, bias, C, eps, kern, cfgs, disp=None):
     epsf, Cf = float(eps), float(C)
     gap = epsf * n * P * Cf
     outputs = int(res[0].get("outputs", "1"))
-    tag = F + ("+b" if bias else "")
     for cfg, rr in zip(cfgs, res):
         ctx.hist("train_path", rr.get("path", "?"))
         # the path taken by the real trainer (verified inside the harness by the decision-map / two-class /
@@ -410,6 +414,10 @@ def check_train_group(ctx, exe, ds, F, bias, C, eps, kern, cfgs, disp=None):
                 got += f" fam={rr.get('fam')} stz={rr.get('stz')} simplex={rr.get('simplex')}"
             if not want.startswith(got):
                 return f"oracle:dispatch:{F}", f"trainer took {got!r}, generated decision logic says {want!r}", ops
+        if rr["oracle"] == ["solver-did-not-reach-accuracy"] and F in SIMPLEX and k > 2:
+            return (f"F-C16-4:simplex-solver-stalls:{tag}",
+                    f"QpMcSimplexDecomp stalls: config {cfg} stopped at the iteration limit ({rr.get('iters')} iterations) with KKT violation {rr.get('acc')} "
+                    f"(eps {eps}), dual value {rr.get('value')}; other configurations of the same problem converge", ops)
         if rr["oracle"]:
             return (f"oracle:{'+'.join(sorted(set(rr['oracle'])))}:{tag}",
                     f"trainer-level oracle failed for config {cfg}: {rr['raw'][-300:]}", ops)
